@@ -30,18 +30,15 @@ open SJ.Props.C03 (ext0 ext0_ok)
 
 /-! ## keys -/
 
-/-- **C15 (keys) — partial.** On every key program that does not reach `serialize_some`
-    (`keyIsSome k = false`: not `Some(_)`, also not behind newtype structs) the two key serializers agree:
-    both fail with the same error class (`KeyMustBeAString`, or `FloatKeyMustBeFinite` for a NaN / ±inf
-    key), or both succeed and the text serializer writes exactly the quoted, escaped key text that
-    `value::ser::MapKeySerializer` returns. Missing for the full statement: `Some(_)` keys, on which the
-    pinned sources really differ (`c15_some_key_disagrees`). -/
-theorem c15_keys_partial (ext : Ext) (hext : ExtOK ext) (k : SVal) (hk : keyIsSome k = false) :
+/-- **C15 (keys).** The two key serializers agree on every key program: both fail with the same error
+    class (`KeyMustBeAString`, or `FloatKeyMustBeFinite` for a NaN / ±inf key), or both succeed and the text
+    serializer writes exactly the quoted, escaped key text that `value::ser::MapKeySerializer` returns. -/
+theorem c15_keys (ext : Ext) (hext : ExtOK ext) (k : SVal) :
     match keySer ext k, keyVal ext k with
     | .ok kb, .ok kt => kb.flatten = quote kt
     | .error e, .error e' => e = e'
     | _, _ => False := by
-  rw [keyVal_eq_keyText ext k hk]
+  rw [keyVal_eq_keyText ext k]
   exact SerModel.keySer_rel ext hext k
 
 /-- bool, i128, finite f32, char, enum and newtype keys are accepted by both, with these texts -/
@@ -55,44 +52,35 @@ example : keyVal ext0 (.bool true) = .ok [0x74, 0x72, 0x75, 0x65] ∧
     keyVal ext0 (.unit) = .error .keyMustBeAString ∧ keySer ext0 (.unit) = .error .keyMustBeAString :=
   ⟨rfl, rfl, rfl, rfl, rfl, rfl, rfl, rfl⟩
 
-/-- **C15 (keys): the counter-example, kernel-checked.** For every key `k` the text key serializer treats
-    `Some(k)` like `k` while `value::ser::MapKeySerializer` rejects it; hence the program
-    `{Some("k"): 1}` (a `BTreeMap<Option<String>, u8>`) is serialised to `{"k":1}` by `to_string` and
-    refused with `key must be a string` by `to_value`, in every configuration. -/
-theorem c15_some_key_disagrees :
-    (∀ ext k, keySer ext (.some k) = keySer ext k) ∧
-    (∀ ext k, keyIsSome k = true → keyVal ext k = .error .keyMustBeAString) ∧
-    (serCompact ext0 (.map none [(.some (.str [0x6b]), .int .u8 1)])).map List.flatten
-      = .ok [0x7b, 0x22, 0x6b, 0x22, 0x3a, 0x31, 0x7d] ∧
-    ∀ cfg, toValue cfg ext0 (.map none [(.some (.str [0x6b]), .int .u8 1)]) = .error .keyMustBeAString :=
-  ⟨fun _ _ => by simp [keySer], fun ext k h => keyVal_some ext k h, rfl, fun _ => rfl⟩
+/-- `Option` keys (also nested and behind newtype structs) are transparent for both -/
+example : keyVal ext0 (.some (.str [0x6b])) = .ok [0x6b] ∧ keyVal ext0 (.some (.newtypeStruct (.some (.int .u8 7)))) = .ok [0x37] ∧
+    keyVal ext0 (.some .none) = .error .keyMustBeAString ∧
+    toValue {} ext0 (.map none [(.some (.str [0x6b]), .int .u8 1)]) = .ok (.obj [([0x6b], .num (.pos 1))]) := ⟨rfl, rfl, rfl, rfl⟩
 
 /-- **C15 (keys): the models' dispatch is the extracted source's.** Method by method of
     `serde::Serializer`, what the two hand-written key-serializer models do on a representative program
     (reject / forward to the payload / finiteness test / accept) is what `tools/extract.py` reads off
-    `src/value/ser.rs` and `src/ser.rs` on this run; and those two tables differ in exactly one method:
-    `serialize_some`. (A change of either `MapKeySerializer` breaks this theorem.) -/
+    `src/value/ser.rs` and `src/ser.rs` on this run; and those two tables coincide. (A change of either `MapKeySerializer` breaks this theorem.) -/
 theorem c15_key_dispatch (m : Gen.KeyMethod) :
     probe (fun p => (keyVal extP p).map fun _ => ()) m = Gen.keyClassValue m ∧
     probe (fun p => (keySer extP p).map fun _ => ()) m = Gen.keyClassText m ∧
-    (Gen.keyClassValue m = Gen.keyClassText m ↔ m ≠ .serialize_some) := by
+    Gen.keyClassValue m = Gen.keyClassText m := by
   refine ⟨probe_value m, probe_text m, ?_⟩
-  cases m <;> decide
+  cases m <;> rfl
 
-example : Gen.keyClassValue .serialize_some = .reject ∧ Gen.keyClassText .serialize_some = .forward ∧
+example : Gen.keyClassValue .serialize_some = .forward ∧ Gen.keyClassText .serialize_some = .forward ∧
     Gen.keyClassValue .serialize_bool = .accept ∧ Gen.keyClassValue .serialize_f32 = .finite := ⟨rfl, rfl, rfl, rfl⟩
 
 /-! ## success -/
 
-/-- **C15 (success).** For every program within the Rust types and without `Some(_)` keys, in every
+/-- **C15 (success).** For every program within the Rust types in every
     configuration: `to_value` succeeds exactly when `to_string` succeeds, except that without
     `arbitrary_precision` a 128-bit integer outside [i64::MIN, u64::MAX] in value position makes
     `to_value` (only) fail. No hypothesis on hints or floats is needed. -/
-theorem c15_success_iff (cfg : Cfg) (ext : Ext) (hext : ExtOK ext) (p : SVal) (hs : inScope p = true)
-    (hk : hasSomeKey p = false) :
+theorem c15_success_iff (cfg : Cfg) (ext : Ext) (hext : ExtOK ext) (p : SVal) (hs : inScope p = true) :
     (∃ v, toValue cfg ext p = .ok v) ↔
       ((∃ bufs, serCompact ext p = .ok bufs) ∧ (cfg.ap = true ∨ has128OutOfRange p = false)) := by
-  have hA := toValue_agree cfg ext hext p hs hk
+  have hA := toValue_agree cfg ext hext p hs
   have hW := image_widen ext cfg.ap p
   have hC := fun e => (C03.c03_error_iff ext hext p e).1
   cases hi : image ext (widenF32 cfg.ap p) with
@@ -143,10 +131,9 @@ example : inScope C03.progBad = true ∧ hasSomeKey C03.progBad = false ∧
 /-- **C15 (errors).** Where the 128-bit exception does not apply, the two serializers fail together *with
     the same error class* (`KeyMustBeAString` / `FloatKeyMustBeFinite`, decided by the first offending key
     in serialisation order). -/
-theorem c15_error_iff (cfg : Cfg) (ext : Ext) (hext : ExtOK ext) (p : SVal) (hs : inScope p = true)
-    (hk : hasSomeKey p = false) (h128 : cfg.ap = true ∨ has128OutOfRange p = false) (e : SerErr) :
+theorem c15_error_iff (cfg : Cfg) (ext : Ext) (hext : ExtOK ext) (p : SVal) (hs : inScope p = true) (h128 : cfg.ap = true ∨ has128OutOfRange p = false) (e : SerErr) :
     toValue cfg ext p = .error e ↔ serCompact ext p = .error e := by
-  have hA := toValue_agree cfg ext hext p hs hk
+  have hA := toValue_agree cfg ext hext p hs
   have hW := image_widen ext cfg.ap p
   have hC := fun e => (C03.c03_error_iff ext hext p e).1
   have hb : (!cfg.ap && has128OutOfRange p) = false := by
@@ -177,11 +164,10 @@ theorem c15_error_iff (cfg : Cfg) (ext : Ext) (hext : ExtOK ext) (p : SVal) (hs 
 /-- **C15 (the 128-bit exception is exactly `NumberOutOfRange`).** Without `arbitrary_precision`, a
     program that `to_string` accepts and that serialises a 128-bit integer outside [i64::MIN, u64::MAX]
     makes `to_value` fail with `number out of range`. -/
-theorem c15_128_error (cfg : Cfg) (ext : Ext) (hext : ExtOK ext) (p : SVal) (hs : inScope p = true)
-    (hk : hasSomeKey p = false) (hap : cfg.ap = false) (h128 : has128OutOfRange p = true)
+theorem c15_128_error (cfg : Cfg) (ext : Ext) (hext : ExtOK ext) (p : SVal) (hs : inScope p = true) (hap : cfg.ap = false) (h128 : has128OutOfRange p = true)
     (bufs : List Bytes) (hser : serCompact ext p = .ok bufs) :
     toValue cfg ext p = .error .numberOutOfRange := by
-  have hA := toValue_agree cfg ext hext p hs hk
+  have hA := toValue_agree cfg ext hext p hs
   have hW := image_widen ext cfg.ap p
   have hC := fun e => (C03.c03_error_iff ext hext p e).1
   cases hi : image ext (widenF32 cfg.ap p) with
@@ -220,11 +206,10 @@ example : inScope (.structVariant [0x56] [([0x61], .int .i128 (-9223372036854775
     (`floatsRT`: C07 under `float_roundtrip`, short literals by default, trivial under
     `arbitrary_precision`), objects with one entry per distinct key, last duplicate winning, sorted /
     in first-occurrence order. -/
-theorem c15_value_is_image (cfg : Cfg) (ext : Ext) (hext : ExtOK ext) (p : SVal) (hs : inScope p = true)
-    (hk : hasSomeKey p = false) (hf : floatsRT (specCfg cfg) ext (widenF32 cfg.ap p) = true)
+theorem c15_value_is_image (cfg : Cfg) (ext : Ext) (hext : ExtOK ext) (p : SVal) (hs : inScope p = true) (hf : floatsRT (specCfg cfg) ext (widenF32 cfg.ap p) = true)
     (v : JV) (h : toValue cfg ext p = .ok v) :
     ∃ d, image ext (widenF32 cfg.ap p) = .ok d ∧ valueOfImage (specCfg cfg) d = some v := by
-  have hA := toValue_agree cfg ext hext p hs hk
+  have hA := toValue_agree cfg ext hext p hs
   cases hi : image ext (widenF32 cfg.ap p) with
   | error e =>
     rw [hi, h] at hA
@@ -250,7 +235,7 @@ def progB : SVal :=
   .map none [(.str [0x62], .f32 0x3fc00000), (.unitVariant [0x61], .tuple [.int .i128 7, .bytes [255]]),
              (.char 0x62, .some (.int .i8 (-3))), (.int .u8 0, .structVariant [0x56] [])]
 
-example : progB.wf = true ∧ inScope progB = true ∧ hasSomeKey progB = false ∧ has128OutOfRange progB = false ∧
+example : progB.wf = true ∧ inScope progB = true ∧ has128OutOfRange progB = false ∧
     floatsRT {} ext0 (widenF32 false progB) = true ∧
     widenF32 false progB = .map none [(.str [0x62], .f64 0x3ff8000000000000),
       (.unitVariant [0x61], .tuple [.int .i128 7, .bytes [255]]), (.char 0x62, .some (.int .i8 (-3))),
@@ -259,7 +244,7 @@ example : progB.wf = true ∧ inScope progB = true ∧ hasSomeKey progB = false 
       ([0x62], .num (.neg (-3)))]) ∧
     toValue { po := true } ext0 progB = .ok (.obj [([0x62], .num (.neg (-3))),
       ([0x61], .arr [.num (.pos 7), .arr [.num (.pos 255)]]), ([0x30], .obj [([0x56], .obj [])])]) := by
-  refine ⟨rfl, rfl, rfl, rfl, by decide +kernel, rfl, rfl, rfl⟩
+  refine ⟨rfl, rfl, rfl, by decide +kernel, rfl, rfl, rfl⟩
 
 /-- … and that value is the one the image of the widened `progB` denotes -/
 example : (match image ext0 (widenF32 false progB) with | .ok d => valueOfImage {} d | .error _ => none) =
@@ -275,12 +260,12 @@ example : (match image ext0 (widenF32 false progB) with | .ok d => valueOfImage 
     (C01/C02, proved on another branch); see `c15_agree_of_parser` for the conclusion under that
     hypothesis, named `ParserComplete`. -/
 theorem c15_agree_partial (cfg : Cfg) (ext : Ext) (hext : ExtOK ext) (p : SVal) (hp : p.wf = true)
-    (hs : inScope p = true) (hk : hasSomeKey p = false)
+    (hs : inScope p = true)
     (hf : floatsRT (specCfg cfg) ext (widenF32 cfg.ap p) = true) (v : JV) (h : toValue cfg ext p = .ok v) :
     ∃ bufs d, serCompact ext (widenF32 cfg.ap p) = .ok bufs ∧ image ext (widenF32 cfg.ap p) = .ok d ∧
       Derives bufs.flatten (cstOf d) ∧ den (cstOf d) = some d ∧
       Spec.Canon.canon (specCfg cfg) (cstOf d) = some v := by
-  obtain ⟨d, hd, hv⟩ := c15_value_is_image cfg ext hext p hs hk hf v h
+  obtain ⟨d, hd, hv⟩ := c15_value_is_image cfg ext hext p hs hf v h
   cases hsr : serCompact ext (widenF32 cfg.ap p) with
   | error e =>
     have := ((C03.c03_error_iff ext hext (widenF32 cfg.ap p) e).1).1 hsr
@@ -303,13 +288,13 @@ def ParserComplete (cfg : Cfg) : Prop :=
     conditions hold for every printed tree whose numbers are in range), parsing `to_string` of the
     (f32-widened) data returns exactly `to_value` of the data. -/
 theorem c15_agree_of_parser (cfg : Cfg) (hparse : ParserComplete cfg) (ext : Ext) (hext : ExtOK ext) (p : SVal)
-    (hp : p.wf = true) (hs : inScope p = true) (hk : hasSomeKey p = false)
+    (hp : p.wf = true) (hs : inScope p = true)
     (hf : floatsRT (specCfg cfg) ext (widenF32 cfg.ap p) = true) (v : JV) (h : toValue cfg ext p = .ok v)
     (hside : ∀ d, image ext (widenF32 cfg.ap p) = .ok d →
       Spec.Canon.sideConditions (specCfg cfg) false (cstOf d) = true) :
     ∃ bufs, serCompact ext (widenF32 cfg.ap p) = .ok bufs ∧
       parseTop ⟨cfg, .str, .value⟩ bufs.flatten = .ok v := by
-  obtain ⟨bufs, d, hb, hd, hder, _, hc⟩ := c15_agree_partial cfg ext hext p hp hs hk hf v h
+  obtain ⟨bufs, d, hb, hd, hder, _, hc⟩ := c15_agree_partial cfg ext hext p hp hs hf v h
   exact ⟨bufs, hb, hparse _ _ _ hder (hside d hd) hc⟩
 
 /-- `progB`: the text `to_string` prints for the widened program, and the model *parser* run on it returns
